@@ -346,4 +346,11 @@ def weightedSimilarity (s : SurrSim) : Rat :=
   s.individual * s.opts.individualWeight + s.parents * s.opts.parentsWeight +
   s.spouses * s.opts.spousesWeight + s.children * s.opts.childrenWeight
 
+/-- `SurroundingSimilarity.WeightedSimilarity` as the source writes it since the repair "a weighted
+    similarity is never more than 1.0": the sum, cut at one.  With weights that sum to one and
+    components in [0,1] the cut never applies in exact arithmetic (`weightedC_eq`, Props/C12Src.lean);
+    it is there for the float64 sum of the products, which rounding can take to 1.0000000000000002. -/
+def weightedSimilarityC (s : SurrSim) : Rat :=
+  if weightedSimilarity s > 1 then 1 else weightedSimilarity s
+
 end Gedcom.Sim
